@@ -1,2 +1,40 @@
 """Extra per-property engines (tables differential, stress, macro corpus, feature matrix)."""
-EXTRA = {}
+import json
+import os
+
+
+def build_feat(ctx, features=("deadlock", "metrics", "testutils")):
+    """harness build with optional rsactor features, in its own target dir"""
+    H = ctx["HARNESS"]
+    ctx["build_harness"]([])  # writes Cargo.toml for the tree under test (and builds the default flavour)
+    env = dict(os.environ, CARGO_NET_OFFLINE="true", CARGO_TARGET_DIR=os.path.join(H, "target-feat"))
+    rc, out, err = ctx["sh"](["cargo", "build", "--release", "--offline", "--features", ",".join(features)], cwd=H, timeout=3000, env=env)
+    if rc != 0:
+        raise ctx["Infra"]("cannot build the feature harness against the tree under test:\n" + err[-3000:])
+    return os.path.join(H, "target-feat", "release")
+
+
+def tables(prop, tier, seed, ctx):
+    """differential test of the translated pure functions + independent oracles on the real functions"""
+    bindir = build_feat(ctx)
+    rep = os.path.join(ctx["BUILD"], f"tables_{prop}.json")
+    rc, out, err = ctx["sh"]([os.path.join(bindir, "tables"), "--driver", ctx["DRIVER"], "--seed", str(seed), "--report", rep], timeout=1800)
+    if rc not in (0, 3):
+        raise ctx["Infra"](f"tables failed rc={rc}:\n" + err[-2000:])
+    r = json.load(open(rep))
+    res = {"evidence": {"cases": r["cases"], "by_kind": r["by_kind"], "oracle_checks": r["oracle_checks"],
+                        "exhaustive_graphs": r["exhaustive_graphs"], "mismatches": len(r["mismatches"]),
+                        "oracle_failures": len(r["oracle_failures"]), "samples": r["samples"]},
+           "violations": [], "broken": []}
+    mine = [f for f in r["oracle_failures"] if prop in f["what"]]
+    for f in mine[:1]:
+        res["violations"].append(("oracle-failure", f"the real function violates: {f['what']} on input `{f['input']}`: got `{f['real']}`, expected `{f['expected']}`",
+                                  {"failing_input": f, "all": mine[:20]}))
+    kinds = {"C05": ["ar"], "C09": ["cfg", "spawnguard"], "C10": ["retry"], "C14": ["hp", "fcp"], "C15": ["hp", "fcp"], "C20": ["metrics"]}.get(prop, [])
+    mm = [m for m in r["mismatches"] if m["input"].split()[1] in kinds]
+    if mm:
+        res["broken"].append(f"translator differential: the function translated from the source and the real function disagree on {len(mm)} input(s), first: {mm[0]}")
+    return res
+
+
+EXTRA = {"tables": tables}
